@@ -115,14 +115,14 @@ func (prog *Prog) Load(src io.Reader) (err error) {
 	var n int
 	var m uint64
 
-	n, _ = r.Read(b[:2])
+	n, _ = io.ReadFull(r, b[:2])
 	if n != 2 {
 		return fmt.Errorf("missing magic header")
 	}
 	if string(b[:2]) != bytecodeMagic {
 		return fmt.Errorf("invalid magic header")
 	}
-	n, _ = r.Read(b[:2])
+	n, _ = io.ReadFull(r, b[:2])
 	if n != 2 {
 		return fmt.Errorf("missing bcode major/minor version")
 	}
@@ -137,11 +137,11 @@ func (prog *Prog) Load(src io.Reader) (err error) {
 	if err != nil {
 		return fmt.Errorf("name size: %w", err)
 	}
-	p, err := r.Peek(int(m))
+	p := make([]byte, m)
+	_, err = io.ReadFull(r, p)
 	if err != nil {
 		return fmt.Errorf("name too short: %w", err)
 	}
-	r.Discard(int(m))
 	prog.name = string(p)
 
 	m, err = uvarintFromBuf(r)
